@@ -378,7 +378,7 @@ type child struct {
 func startChild(self string, cfg childCfg, evlog string, envCrash string, logPath string) (*child, error) {
 	args := []string{"-child", "-dir", cfg.Dir, "-port", strconv.Itoa(cfg.Port), "-engine", cfg.Engine,
 		"-snapcount", strconv.Itoa(cfg.SnapCount), "-segsize", strconv.FormatInt(cfg.SegSize, 10),
-		"-keep", strconv.Itoa(cfg.Keep), "-optfsync=" + strconv.FormatBool(cfg.OptFsync), "-waitcompact=" + strconv.FormatBool(cfg.WaitCompact)}
+		"-keep", strconv.Itoa(cfg.Keep), "-optfsync=" + strconv.FormatBool(cfg.OptFsync), "-waitcompact=" + strconv.FormatBool(cfg.WaitCompact), "-purgetick=" + strconv.FormatBool(cfg.PurgeTick)}
 	if cfg.ID > 0 {
 		args = []string{"-child", "-id", strconv.Itoa(cfg.ID), "-root", cfg.Root, "-port", strconv.Itoa(cfg.Base), "-engine", cfg.Engine,
 			"-snapcount", strconv.Itoa(cfg.SnapCount), "-segsize", strconv.FormatInt(cfg.SegSize, 10),
@@ -821,7 +821,7 @@ func runDir(self string, job dirJob, pa *portAlloc, emit func(RunRec)) {
 		panic(err)
 	}
 	defer os.RemoveAll(dir)
-	cfg := childCfg{Dir: dir, Engine: job.engine, SnapCount: 20, SegSize: 8192, Keep: 2, OptFsync: job.optFsync, WaitCompact: strings.Contains(job.mode, "ttl")}
+	cfg := childCfg{Dir: dir, Engine: job.engine, SnapCount: 20, SegSize: 8192, Keep: 2, OptFsync: job.optFsync, WaitCompact: strings.Contains(job.mode, "ttl"), PurgeTick: strings.Contains(job.mode, "purge")}
 	if job.snapCount > 0 {
 		cfg.SnapCount = job.snapCount
 	}
@@ -977,6 +977,11 @@ func runDir(self string, job dirJob, pa *portAlloc, emit func(RunRec)) {
 					g.pending = append(g.pending, []string{"setex", ek, strconv.Itoa(ttlSeconds), "10"}, []string{"incr", ek}, []string{"incrby", ek, "5"})
 				}
 				op := OpRec{Cmd: g.next()}
+				if strings.Contains(job.mode, "purge") && op.Cmd[0] == "set" && len(op.Cmd[2]) < 100 {
+					// entries of a few KiB: several WAL segments between two snapshots (the purger has something to remove
+					// while the newest snapshot lies inside an older segment)
+					op.Cmd = []string{op.Cmd[0], op.Cmd[1], op.Cmd[2] + strings.Repeat("w", 7000)}
+				}
 				if op.Cmd[0] == "setex" && strings.HasPrefix(op.Cmd[1], nsName+":t:e") {
 					lastVolatile = time.Now()
 				}
